@@ -6,6 +6,8 @@ type FnMark = unsafe extern "C" fn(*const libc::c_char);
 type FnArm = unsafe extern "C" fn(libc::c_int, i64, libc::c_int, libc::c_int);
 type FnReset = unsafe extern "C" fn();
 type FnStats = unsafe extern "C" fn(*mut u64);
+type FnShortLen = unsafe extern "C" fn(i64);
+type FnBelow = unsafe extern "C" fn(i64);
 
 pub struct Vio {
     set_log: FnSetLog,
@@ -13,6 +15,8 @@ pub struct Vio {
     arm: FnArm,
     reset: FnReset,
     stats: FnStats,
+    short_len: Option<FnShortLen>,
+    below: Option<FnBelow>,
 }
 
 #[derive(Debug, Clone, Copy, Default)]
@@ -27,6 +31,8 @@ pub struct IoStats {
 
 pub const CLASS_WRITE: i32 = 1;
 pub const CLASS_FSYNC: i32 = 2;
+/// writes that land in the two header pages (file offset below `below`)
+pub const CLASS_HEADER_WRITE: i32 = 3;
 pub const KIND_FAIL: i32 = 0;
 pub const KIND_SHORT: i32 = 1;
 pub const KIND_FAIL_FROM: i32 = 2;
@@ -48,7 +54,11 @@ impl Vio {
             if a.is_null() || b.is_null() || c.is_null() || d.is_null() || e.is_null() {
                 return None;
             }
+            let f = sym("vio_short_len");
+            let gb = sym("vio_below");
             Some(Vio {
+                below: if gb.is_null() { None } else { Some(std::mem::transmute::<*mut libc::c_void, FnBelow>(gb)) },
+                short_len: if f.is_null() { None } else { Some(std::mem::transmute::<*mut libc::c_void, FnShortLen>(f)) },
                 set_log: std::mem::transmute::<*mut libc::c_void, FnSetLog>(a),
                 mark: std::mem::transmute::<*mut libc::c_void, FnMark>(b),
                 arm: std::mem::transmute::<*mut libc::c_void, FnArm>(c),
@@ -67,6 +77,17 @@ impl Vio {
     }
     pub fn arm(&self, class: i32, nth: i64, errno: i32, kind: i32) {
         unsafe { (self.arm)(class, nth, errno, kind) }
+    }
+    /// how many bytes the next armed short write really writes (0 = half of the buffer)
+    pub fn short_len(&self, n: i64) {
+        if let Some(f) = self.short_len {
+            unsafe { f(n) }
+        }
+    }
+    pub fn below(&self, n: i64) {
+        if let Some(f) = self.below {
+            unsafe { f(n) }
+        }
     }
     pub fn reset(&self) {
         unsafe { (self.reset)() }
